@@ -192,38 +192,49 @@ func ruleEANAssembly(c *Ctx) {
 			call := calls[0]
 			full := call.Common().Args[0]
 			n.Bind[full] = "full"
-			from := fn.Blocks[0]
-			if p, ok := full.(ssa.Instruction); ok && p.Block() != nil {
-				from = p.Block() // where the completed code is defined
-			}
-			// the selection is judged on the normal path: errors reported by helpers have been returned
-			assume := cTrue
-			ne := 0
-			eachInstr(fn, func(b *ssa.BasicBlock, ins ssa.Instruction) {
-				if ex, ok := ins.(*ssa.Extract); ok && isErrorType(ex.Type()) {
-					if _, isCall := ex.Tuple.(*ssa.Call); isCall {
-						ne++
-						n.Bind[ex] = fmt.Sprintf("err%d", ne)
-						assume = cAnd(assume, &Cond{Kind: CBool, Name: fmt.Sprintf("Eq(err%d,nil)", ne)})
+			// the selection is judged from the highest dominator from which reaching the call depends on
+			// the completed code alone (whatever was checked before - errors, flags - has been decided there)
+			from := call.Block()
+			for d := call.Block().Idom(); d != nil; d = d.Idom() {
+				cond := n.ReachCond(fn, d, call.Block())
+				cv := &condVars{bases: map[string]map[int64]bool{}, bools: map[string]bool{}}
+				collect(cond, cv)
+				onlyFull := len(cv.bools) == 0
+				for bname := range cv.bases {
+					if bname != "len(full)" {
+						onlyFull = false
 					}
 				}
-			})
-			c.expectCondC(R4, "ean.EncodeWithColor/"+v.enc+"-iff", call.Pos(), cAnd(assume, n.ReachCond(fn, from, call.Block())), cAnd(assume, MustRefCond(v.want)))
-			// the constructor fed by this call
+				if !onlyFull {
+					break
+				}
+				from = d
+				if ins, ok := full.(ssa.Instruction); ok && ins.Block() == d {
+					break
+				}
+			}
+			c.expectCond(R4, "ean.EncodeWithColor/"+v.enc+"-iff", call.Pos(), n.ReachCond(fn, from, call.Block()), v.want)
+			// the constructor fed by this call: wherever the bars of this variant arrive, the kind is the
+			// variant's and the content is the completed code
 			found := false
 			eachInstr(fn, func(b *ssa.BasicBlock, ins ssa.Instruction) {
 				ctor, ok := ins.(*ssa.Call)
-				if !ok || calleeOf(ctor) == nil || len(ctor.Common().Args) < 4 || ctor.Common().Args[2] != ssa.Value(call) {
+				if !ok || calleeOf(ctor) == nil || len(ctor.Common().Args) < 4 || calleeOf(ctor).Pkg == nil || shortName(calleeOf(ctor).Pkg.Pkg.Path()) != "utils" {
 					return
 				}
-				found = true
 				a := ctor.Common().Args
-				kind := ""
-				if k, ok := a[0].(*ssa.Const); ok && k.Value != nil {
-					kind = constant.StringVal(k.Value)
+				for _, jc := range jointCases(n, fn, fn.Blocks[0], []ssa.Value{a[0], a[2], a[1]}, b, n.ReachCond(fn, nil, b), 0) {
+					if jc.vals[1] != ssa.Value(call) {
+						continue
+					}
+					found = true
+					kind := ""
+					if k, ok := jc.vals[0].(*ssa.Const); ok && k.Value != nil {
+						kind = constant.StringVal(k.Value)
+					}
+					c.Check(R4, "ean.EncodeWithColor/"+v.enc+"-kind", ctor.Pos(), kind == v.kind, v.kind, kind)
+					c.Check(R4, "ean.EncodeWithColor/"+v.enc+"-content", ctor.Pos(), jc.vals[2] == full, "the completed code that was drawn", n.Norm(jc.vals[2]).String())
 				}
-				c.Check(R4, "ean.EncodeWithColor/"+v.enc+"-kind", ctor.Pos(), kind == v.kind, v.kind, kind)
-				c.Check(R4, "ean.EncodeWithColor/"+v.enc+"-content", ctor.Pos(), a[1] == full, "the completed code that was drawn", n.Norm(a[1]).String())
 			})
 			c.Check(R4, "ean.EncodeWithColor/"+v.enc+"-ctor", call.Pos(), found, "bars handed to the constructor", fmt.Sprint(found))
 			delete(n.Bind, full)
